@@ -51,11 +51,6 @@ theorem started_run {cfg : Cfg} : ∀ (ls : List Label) (s0 s : State), run cfg 
         · exact Or.inr (by simp [h3])
       · exact Or.inr (List.mem_cons_of_mem _ h2)
 
-/-- A label that is API activity / a handler call of some task. -/
-def Label.isActivity : Label → Bool
-  | .act _ | .withdraw _ _ => true
-  | _ => false
-
 /-- An activity label is enabled only behind the `started_flag`. -/
 theorem activity_needs_started {cfg : Cfg} {s s' : State} {l : Label} (hA : InvA s) (hl : l.isActivity = true)
     (h : step cfg s l = some s') : s.started = true := by
